@@ -348,7 +348,9 @@ static int long_stream(ZSTD_CCtx* c, ZSTD_DCtx* d, U64 total, U64 seed, U64* pro
     U64 fed = 0, produced = 0, decoded = 0, nchunks = (total + BCH - 1) / BCH, i; int ok = 1;
     U64 expChunk = (U64)-1; size_t r = 0;
     XXH64_state_t xs; XXH64_reset(&xs, 0);
-    if (d) { ZSTD_DCtx_reset(d, ZSTD_reset_session_and_parameters); ZSTD_DCtx_setParameter(d, ZSTD_d_windowLogMax, ZSTD_WINDOWLOG_MAX); }
+    if (d) { ZSTD_DCtx_reset(d, ZSTD_reset_session_and_parameters); ZSTD_DCtx_setParameter(d, ZSTD_d_windowLogMax, ZSTD_WINDOWLOG_MAX);
+             if (dictMode == 1) ZSTD_DCtx_refPrefix(d, arena + dictOff, dictSize);
+             else if (dictMode == 2) ZSTD_DCtx_loadDictionary_advanced(d, arena + dictOff, dictSize, ZSTD_dlm_byRef, ZSTD_dct_rawContent); }
     for (i = 0; i < nchunks && ok; i++) {
         size_t const n = (size_t)((total - fed < BCH) ? total - fed : BCH);
         ZSTD_inBuffer ib; ZSTD_EndDirective const dir = (i == nchunks - 1) ? ZSTD_e_end : ZSTD_e_continue;
@@ -403,9 +405,10 @@ static void mtstream(U64 total, U64 seed, ll warpTo) {
             }
         }
     }
+    apply_dict(cctx);     /* a prefix / dictionary in force goes to the first job (as a CDict) and, raw, to the serial LDM state */
     ok = long_stream(cctx, dctx, total, seed, &p1, &h1);
     fresh = ZSTD_createCCtx_advanced(cmem);
-    apply_params(fresh);
+    apply_params(fresh); apply_dict(fresh);
     (void)long_stream(fresh, NULL, total, seed, &p2, &h2);
     ZSTD_freeCCtx(fresh);
     if (cctx->mtctx && cctx->mtctx->cctxPool) {
@@ -425,7 +428,8 @@ static void mtstream(U64 total, U64 seed, ll warpTo) {
     printf("G api=mtstream size=%llu csize=%llu rt=%d fresh=%d nbovf=%u maxidx=%lld workers=%d warped=%d wtbad=%zu",
            (unsigned long long)total, (unsigned long long)p1, ok, p1 == p2 && h1 == h2, wnb, wmax, nw, warped, wbad);
     if (cctx->mtctx) printf(" serialnbovf=%u", cctx->mtctx->serial.ldmState.window.nbOverflowCorrections);
-    printf("\n");
+    printf(" dict=%d,%zu,%zu\n", dictMode, dictOff, dictSize);
+    if (dictMode == 1) dictMode = 0;   /* a prefix is single-use */
 }
 
 /* ---------------- finding F7 probe: LDM on, one frame, `ncalls` flushes of 6 bytes, then `tail` chunks of 64 KiB --------
@@ -494,6 +498,90 @@ static void ldmtiny(U64 ncalls, U64 tail, ll warpIdx) {
     free(out); free(dec); free(big);
 }
 
+/* ---------------- finding probe: the per-frame job counters of ZSTDMT are 32 bits wide ------------------------------
+ * mtjobwrap start nflush chunk : nbWorkers >= 1 must be in force.  One frame, fed through ZSTD_compressStream2 +
+ * ZSTD_e_flush in `chunk`-byte pieces (one job per call).  After the first flush has returned 0 - every job done and
+ * flushed, so nextJobID / doneJobID / serial.nextJobID are the only state that records how many jobs the frame has
+ * had - the three counters are set to `start` (test device: the state of a frame after `start` flush calls; 2^32 real
+ * calls take > 30 h).  A watchdog (SIGALRM) reports a call that never returns. */
+#include <signal.h>
+#include <unistd.h>
+static volatile unsigned mjw_calls; static unsigned mjw_start;
+static void mjw_alarm(int sig) {
+    char b[256]; int n; (void)sig;
+    n = snprintf(b, sizeof(b), "T api=mtjobwrap start=%u flushes=%u hang=1 next=%u done=%u mask=%u rt=0\n", mjw_start, mjw_calls,
+                 cctx->mtctx ? cctx->mtctx->nextJobID : 0, cctx->mtctx ? cctx->mtctx->doneJobID : 0, cctx->mtctx ? cctx->mtctx->jobIDMask : 0);
+    if (write(1, b, (size_t)n) < 0) _exit(3);
+    _exit(0);
+}
+static void mtjobwrap(unsigned start, int nflush, size_t chunk) {
+    size_t const total = (size_t)(nflush + 2) * chunk; size_t dpos = 0; int k, ok = 1;
+    if (total > arenaSize) { printf("E mtjobwrap arena too small\n"); return; }
+    need_cbuf(total + (size_t)(nflush + 2) * 64);
+    apply_params(cctx);
+    ZSTD_CCtx_setParameter(cctx, ZSTD_c_checksumFlag, 1);
+    mjw_start = start; mjw_calls = 0;
+    fflush(stdout);
+    signal(SIGALRM, mjw_alarm);
+    for (k = 0; k < nflush + 2 && ok; k++) {
+        ZSTD_inBuffer in; ZSTD_EndDirective const dir = (k == nflush + 1) ? ZSTD_e_end : ZSTD_e_flush; size_t r;
+        in.src = arena + (size_t)k * chunk; in.size = chunk; in.pos = 0;
+        alarm(8);
+        do {
+            ZSTD_outBuffer out; out.dst = cbuf; out.size = cbufCap; out.pos = dpos;
+            r = ZSTD_compressStream2(cctx, &out, &in, dir);
+            dpos = out.pos;
+            if (ZSTD_isError(r)) { printf("E mtjobwrap compress %s\n", ZSTD_getErrorName(r)); ok = 0; break; }
+        } while (r != 0 || in.pos < in.size);
+        alarm(0);
+        if (k == 0 && ok) {
+            ZSTDMT_CCtx* const m = cctx->mtctx;
+            if (!m || m->nextJobID != m->doneJobID) { printf("E mtjobwrap no idle mtctx\n"); ok = 0; break; }
+            printf("X mtjobwrap counters next=%u done=%u serial=%u mask=%u -> %u\n", m->nextJobID, m->doneJobID, m->serial.nextJobID, m->jobIDMask, start);
+            fflush(stdout);
+            if (start) { m->nextJobID = start; m->doneJobID = start; m->serial.nextJobID = start; }
+        } else if (ok && dir == ZSTD_e_flush) mjw_calls++;
+    }
+    {   int rt = 0;
+        printf("T api=mtjobwrap start=%u flushes=%u hang=0 next=%u done=%u mask=%u", start, mjw_calls,
+               cctx->mtctx ? cctx->mtctx->nextJobID : 0, cctx->mtctx ? cctx->mtctx->doneJobID : 0, cctx->mtctx ? cctx->mtctx->jobIDMask : 0);
+        if (ok) { int const saved = dictMode; dictMode = 0; rt = decode_ok(cbuf, dpos, arena, total); dictMode = saved; }
+        printf(" rt=%d\n", rt);
+    }
+}
+
+/* ---------------- unit-level tie of the serial LDM state of ZSTDMT (finding C15-zstdmt-ldm-prefix-index-wraps, repaired) -----
+ * mtldmload dictSize forceWindow srcOff srcSize : ZSTDMT_serialState_reset (real function, LDM on, raw-content prefix of
+ * dictSize bytes) followed by the window update ZSTDMT_serialState_update makes for the first job.  The prefix is a sparse
+ * zero mapping (never written, so it costs no memory); it ends where the arena begins when possible.  The LDM window after
+ * each step and the exactness of its current index are printed for comparison with the model (MtJobs.v). */
+#include <sys/mman.h>
+static void mtldmload(size_t dictSize, int forceWindow, size_t srcOff, size_t srcSize) {
+    ZSTDMT_CCtx* const m = ZSTDMT_createCCtx_advanced(1, cmem, NULL);
+    BYTE* const map = (BYTE*)mmap(NULL, dictSize + 4096, PROT_READ, MAP_PRIVATE | MAP_ANONYMOUS | MAP_NORESERVE, -1, 0);
+    ZSTD_CCtx_params p; int err;
+    if (!m || map == MAP_FAILED) { printf("E mtldmload setup\n"); return; }
+    apply_params(cctx);
+    p = cctx->requestedParams;
+    p.cParams = ZSTD_getCParamsFromCCtxParams(&p, ZSTD_CONTENTSIZE_UNKNOWN, 0, ZSTD_cpm_noAttachDict);
+    p.ldmParams.enableLdm = ZSTD_ps_enable;
+    p.forceWindow = forceWindow;
+    p.customMem = cmem;
+    err = ZSTDMT_serialState_reset(&m->serial, m->seqPool, p, (size_t)1 << 20, map, dictSize, ZSTD_dct_rawContent);
+    printf("M api=mtldmload dictsize=%zu dict=%lld fw=%d err=%d", dictSize, AOFF(map), forceWindow, err);
+    {   const ZSTD_window_t* const w = &m->serial.ldmState.window; ll const c_ = (ll)(w->nextSrc - w->base);
+        w_out("LW", w); printf(" llde=%u exact=%d", m->serial.ldmState.loadedDictEnd, c_ >= 0 && c_ < 4294967296LL);
+    }
+    /* first job: the statement of ZSTDMT_serialState_update that moves the window */
+    ZSTD_window_update(&m->serial.ldmState.window, arena + srcOff, srcSize, /* forceNonContiguous */ 0);
+    {   const ZSTD_window_t* const w = &m->serial.ldmState.window; ll const c_ = (ll)(w->nextSrc - w->base);
+        printf(" src=%zu,%zu", srcOff, srcSize); w_out("JW", w); printf(" jexact=%d", c_ >= 0 && c_ < 4294967296LL);
+    }
+    printf(" lit=%lld\n", AOFF(litAddr));
+    ZSTDMT_freeCCtx(m);
+    munmap(map, dictSize + 4096);
+}
+
 int main(int argc, char** argv) {
     char* line = NULL; size_t cap = 0;
     static ll a[2 * MAXCH + 16];
@@ -532,6 +620,8 @@ int main(int argc, char** argv) {
         else if (!strcmp(cmd, "bigstream")) bigstream((U64)a[0], (U64)a[1]);
         else if (!strcmp(cmd, "ldmtiny")) ldmtiny((U64)a[0], (U64)a[1], n > 2 ? a[2] : 0);
         else if (!strcmp(cmd, "mtstream")) mtstream((U64)a[0], (U64)a[1], n > 2 ? a[2] : 0);
+        else if (!strcmp(cmd, "mtjobwrap")) mtjobwrap((unsigned)a[0], (int)a[1], (size_t)a[2]);
+        else if (!strcmp(cmd, "mtldmload")) mtldmload((size_t)a[0], (int)a[1], (size_t)a[2], (size_t)a[3]);
         else if (!strcmp(cmd, "bufferless")) {
             /* wlog clog hlog slog mml tlen strat checksum nch (off size)* */
             ZSTD_compressionParameters cp;
